@@ -205,6 +205,12 @@ class Optic:
             surface_number (int): The index of the surface.
         """
         positions = self.surface_group.positions
+        if surface_number == 0:
+            # object distance: only the object surface moves (also when the
+            # object is, or becomes, infinitely far away)
+            self.surface_group.surfaces[0].geometry.cs.z = \
+                float(positions[1][0]) - value
+            return
         delta_t = value - positions[surface_number+1] + \
             positions[surface_number]
         positions[surface_number+1:] += delta_t
